@@ -174,6 +174,7 @@ type connResult struct {
 	Dispatches []dispatchRec
 	HijackRead []byte
 	HijackRan  bool
+	HijackConn net.Conn // set when the hijack handler returned before reading everything (hjk=N)
 	ServeErr   error
 	Consumed   int
 }
@@ -219,6 +220,20 @@ func (cs *connServer) run(chunks [][]byte) *connResult {
 		res.ServeErr = cs.s.ServeConn(conn)
 	}()
 	waitTimeout(&cs.hjWG, 2*time.Second)
+	if res.HijackConn != nil && cs.cfg.KeepHijacked {
+		// the application keeps using the hijacked connection after the hijack handler returned
+		time.Sleep(5 * time.Millisecond)
+		func() {
+			defer func() {
+				if e := recover(); e != nil {
+					tr.add(connEvent{Kind: "panic", S: "reading the kept hijacked connection: " + fmt.Sprint(e)})
+				}
+			}()
+			b, _ := io.ReadAll(res.HijackConn)
+			res.HijackRead = append(res.HijackRead, b...)
+			res.HijackConn.Close()
+		}()
+	}
 	res.Consumed = conn.consumed
 	return res
 }
@@ -320,9 +335,20 @@ func newConnServer(cfg connCfg) *connServer {
 			ctx.Hijack(func(c net.Conn) {
 				defer hjWG.Done()
 				res.HijackRan = true
-				tr.add(connEvent{Kind: "hjstart", N: len(tr.Out)})
-				b, _ := io.ReadAll(c)
-				res.HijackRead = b
+				tr.mu.Lock()
+				outLen := len(tr.Out)
+				tr.mu.Unlock()
+				tr.add(connEvent{Kind: "hjstart", N: outLen})
+				if k := q.GetUintOrZero("hjk"); k > 0 {
+					// read only k bytes inside the handler; with KeepHijackedConns the rest is read after it returned
+					buf := make([]byte, k)
+					n, _ := io.ReadFull(c, buf)
+					res.HijackRead = buf[:n]
+					res.HijackConn = c
+				} else {
+					b, _ := io.ReadAll(c)
+					res.HijackRead = b
+				}
 				tr.add(connEvent{Kind: "hjdone"})
 			})
 			if q.Has("hjn") {
@@ -401,3 +427,11 @@ func (r *connResult) states() []string {
 	}
 	return s
 }
+
+func trunc(b []byte, n int) []byte {
+	if len(b) > n {
+		return append(append([]byte(nil), b[:n]...), "..."...)
+	}
+	return b
+}
+
